@@ -17,7 +17,7 @@ THEOREMS = [
     "c14_translated", "c14_poll_interval_documented", "c14_deadline", "c14_timeout_at_deadline", "c14_cancel_latency", "c14_cancelled_only_if_fired",
     "c14_one_cancel_notification", "c14_cancel_before_send_writes_no_request", "c14_progress_exact",
     "c14_consumed_is_before_completion", "c14_progress_token_filter", "c14_callback_failure_irrelevant",
-    "c14_shared_token", "c14_shared_token_starts", "c14_blocked_writer", "c14_token_flag", "c14_token_callbacks",
+    "c14_shared_token", "c14_shared_token_starts", "c14_blocked_writer", "c14_stalled_writer", "c14_token_flag", "c14_token_callbacks",
 ]
 RULE = (
     "schedules: placements of {cancel, matching response, deadline} on the tick grid (1/1024 s) at poll boundaries +-1 tick, "
@@ -81,6 +81,11 @@ class Schedules(Suite):
                                 # the same schedule against a peer that closed its end / stopped reading
                                 for wm in ("closed", "blocked"):
                                     out.append(G.place(dict(case, writer=wm, ev=[list(e) for e in ev])))
+                                # a peer that is only slow: reads again one tick / one poll / two polls after the token fired
+                                for dr in (1, P // 2, P + 3, 2 * P + 1):
+                                    su = c + dr
+                                    if su != D:
+                                        out.append(G.place(dict(case, writer="stalled", stallUntil=su, ev=[list(e) for e in ev])))
         # cancelled before sending / token present but never fired
         for tie in ("events", "timers", "io"):
             for ev in ([], [[0, G.sym_event("N")]], [[5, {"k": "resp", "id": "$ID", "p": {"x": 1}}]]):
@@ -177,7 +182,10 @@ class Schedules(Suite):
             # a peer that has stopped reading: the cancelled notification cannot be written; the
             # deadline (checked above) is what still bounds the call -- outside the property's
             # quantifier (inbound traffic), see DESIGN 9.8
-            if t > c + P and wm != "blocked":
+            slack = c + P
+            if wm == "stalled":
+                slack = max(slack, case["stallUntil"])  # the notification goes out when the peer reads again
+            if t > slack and wm != "blocked":
                 return ("cancel-latency", f"token fired at {c}, call ended at {t} > {c}+{P} ({o['outcome']})", {"t<=": c + P})
             if o["outcome"] == "cancelled" and t < c:
                 return ("cancelled-early", f"CancelledError at {t} before the token fired at {c}", None)
@@ -205,7 +213,7 @@ class Schedules(Suite):
             if [x for _, x in seq[:k] if x is not None] == o["cbs"]:
                 ok = True
                 break
-        if not ok and wm == "blocked" and c is not None and c < t:
+        if not ok and wm in ("blocked", "stalled") and c is not None and c < t:
             # stuck in the write of the cancelled notification since the poll after `c`: what arrives
             # while the call is stuck is not consumed (outside the quantifier, DESIGN 9.8); what
             # arrived before the token fired must still have been delivered, in order
